@@ -284,7 +284,7 @@ def nt_program(case):
 def setter_case(draw):
     g = draw(gen.geom(ndim=(1, 4), nmax=5, exps=(-9, 2), big_offsets=False, maxcells=200))
     nd = len(g["n"])
-    return {"g": g, "k": draw(st.integers(1, 4)), "seed": draw(st.integers(0, 2**31)),
+    return {"g": g, "k": draw(gen.nvdim_strategy()), "seed": draw(st.integers(0, 2**31)),
             "form": draw(st.sampled_from(["bool-array", "int-array", "float-array", "nested-list", "callable", "true",
                                           "false", "none", "norm", "norm", "bool-array-n1", "field-mask", "field-mask"])),
             # valid="norm" on integer-typed fields whose squares leave the range of the dtype
